@@ -283,3 +283,9 @@ package configmigrate
 //@   property C13
 //@   modifies *
 //@   ensures error-leaves-unchanged: err != nil ==> newBody == body && !upgraded
+
+// replaceDot rewrites elements of the nested 'ignored' array only; every entry of the top-level map is kept.
+//@ func replaceDot(diskConf yobj, key string) (err error)
+//@   property C13
+//@   modifies *
+//@   ensures top-level-kept: forall k string :: (k in diskConf) == old(k in diskConf) && diskConf[k] == old(diskConf[k])
